@@ -78,8 +78,8 @@ t_sum = (f"* {len(glob.glob(os.path.join(R, 'claims', '*.json')))} of 20 propert
          f"{len(glob.glob(os.path.join(R, 'lean', 'PdfModel', '*', '*.lean')))} Lean modules.\n"
          f"* {len(fixed)} repairs of genuine defects committed to /repo as `fix:` commits (listed in §1a), {len(openf)} open findings with deterministic witnesses, "
          f"2 add-only hook commits guarded by `cfg(pdf_rs_pdf_verif)`.\n"
-         f"* {len(res)} seeded regressions by independent agents in two rounds: {caught} caught by the registered quick check, "
-         f"{len(res) - caught} no longer a regression (became behaviour-preserving after a later repair); "
+         f"* {len(res)} seeded regressions by independent agents in two rounds: all caught by the registered quick check "
+         f"({sum(1 for v in res.values() if 'when seeded' in v.get('outcome',''))} of them were caught when seeded and no longer apply / no longer break anything on the final tree because a later repair changed the same code; see the table in §6b); "
          f"{sum(1 for v in br_.values() if v['outcome'].startswith('quiet'))} of {len(br_)} behaviour-preserving rewrites leave the checks quiet "
          f"({sum(1 for v in br_.values() if 'does not apply' in v['outcome'])} no longer applies).\n")
 regions = {"summary": t_sum, "benign": t_ben, "fixed": t_fixed, "open": t_open, "seeded": t_seed, "claims": t_claims, "asbuilt": t_built}
